@@ -103,12 +103,39 @@ class Fn:
             return f"(pure (PyV.int (-{e.operand.value})))"
         if isinstance(e, ast.IfExp):
             return f"(pyIf {self.expr(e.test)} {self.expr(e.body)} {self.expr(e.orelse)})"
+        if (isinstance(e, ast.Call) and isinstance(e.func, ast.Attribute) and isinstance(e.func.value, ast.Name)
+                and e.func.value.id == "self" and not e.args and not e.keywords):
+            # a call of a small private helper of the same class, `self._helper()`, whose body is a single
+            # `return <expression>`: inlined (the expression is read in the same `self`)
+            helper = self.helper_return(e.func.attr)
+            if helper is not None:
+                return self.expr(helper)
+            raise Untranslatable(f"call self.{e.func.attr}()")
         if isinstance(e, ast.Call) and isinstance(e.func, ast.Name):
             if e.func.id in ("min", "max") and len(e.args) == 2 and not e.keywords:
                 return f"(bind2 {e.func.id}2 {self.expr(e.args[0])} {self.expr(e.args[1])})"
             if e.func.id in self.ctor_classes and len(e.args) == 2 and not e.keywords:
                 return f"(bind2 {e.func.id}_new {self.expr(e.args[0])} {self.expr(e.args[1])})"
         raise Untranslatable(ast.dump(e)[:80])
+
+    def helper_return(self, name: str):
+        """The expression returned by the zero-argument method/property `name` of the class when its body
+        is a single `return <expression>` (after an optional docstring); None otherwise."""
+        try:
+            f = inspect.getattr_static(self.cls, name)
+            if isinstance(f, property):
+                return None          # a property is read as an attribute, not called
+            tree = ast.parse(textwrap.dedent(inspect.getsource(f)))
+        except (AttributeError, OSError, TypeError, SyntaxError):
+            return None
+        fdef = next((n for n in ast.walk(tree) if isinstance(n, ast.FunctionDef)), None)
+        if fdef is None or len(fdef.args.args) != 1:
+            return None
+        body = [b for b in fdef.body
+                if not (isinstance(b, ast.Expr) and isinstance(b.value, ast.Constant) and isinstance(b.value.value, str))]
+        if len(body) == 1 and isinstance(body[0], ast.Return) and body[0].value is not None:
+            return body[0].value
+        return None
 
     # statements (continuation-passing: the rest of the block is duplicated into both branches)
     def block(self, stmts) -> str:
@@ -125,6 +152,14 @@ class Fn:
             return f"(Except.error PyExc.{name})" if name else f'(Except.error (PyExc.other "{exc}"))'
         if isinstance(s, ast.Assign) and len(s.targets) == 1 and isinstance(s.targets[0], ast.Name):
             v = s.targets[0].id
+            rhs = self.expr(s.value)
+            self.locals.add(v)
+            return f"({rhs} >>= fun {ident(v)} => {self.block(rest)})"
+        if isinstance(s, ast.AnnAssign) and isinstance(s.target, ast.Name):
+            # `x: T = value` is `x = value`; a bare annotation `x: T` does nothing
+            if s.value is None:
+                return self.block(rest)
+            v = s.target.id
             rhs = self.expr(s.value)
             self.locals.add(v)
             return f"({rhs} >>= fun {ident(v)} => {self.block(rest)})"
@@ -392,11 +427,15 @@ def main() -> None:
 
     for name, gen in (("Kernel", gen_kernel), ("Flags", gen_flags), ("Schema", gen_schema), ("Names", gen_names),
                       ("Ops", gen_ops_file), ("RelOps", lambda: extract_ops.gen_rel_ops(PROBLEMS))):
+        before = len(PROBLEMS)
         try:
             content = gen()
         except Exception as e:  # noqa: BLE001
             PROBLEMS.append(f"{name}: translator could not read the source ({type(e).__name__}: {e})")
             content = f"/- GENERATED: translation failed -/\nnamespace DafRel.Gen\nend DafRel.Gen\n"
+        # tag every problem with the generated module it belongs to: it only concerns the properties whose
+        # theorems depend on that module
+        PROBLEMS[before:] = [f"[{name}] {q}" for q in PROBLEMS[before:]]
         if write_if_changed(os.path.join(GEN, name + ".lean"), content):
             changed.append(name)
     for p in PROBLEMS:
